@@ -281,6 +281,93 @@ def kernel_case(img, alg, func, lanes_n, nblocks=1, ptr_cross_4g=False, row_stri
     return out
 
 
+MH_KERNELS = [("sha1", "mh_sha1/mh_sha1_block_%s.asm", "mh_sha1_block_%s"), ("sha256", "mh_sha256/mh_sha256_block_%s.asm", "mh_sha256_block_%s")]
+MH_FAMS = ["sse", "avx", "avx2", "avx512"]
+
+
+def mh_case(img, alg, func, nblocks=2):
+    """multi-hash block function: (input, digests[words][16], frame_buffer[1024], num_blocks); 16 segments, segment s takes dword s
+    of each 64-byte row of the 1024-byte block as its message word; every segment's digest must be the iterated standard compression"""
+    A = ALG[alg]
+    nw = A["words"]
+    c = Case("%s blocks=%d" % (func, nblocks), func)
+    inp = c.region("input", 1024 * nblocks, "in", align_off=5)
+    dg = c.region("digests", nw * 64, "state", align_off=0)
+    fb = c.region("frame_buffer", 1024, "state", align_off=0)
+    c.args = [inp, dg, fb, nblocks]
+    out = aescases_Outcome(c.name)
+    if func not in img.symbols:
+        out.error = "symbol %s not found" % func
+        return out
+    info = {}
+
+    def prepare(m, mem, regs):
+        R = regs["digests"]
+        ct = aesrun.CutTable(common.SEED)
+        ct.elem_bits = 32
+        ct.fast = True
+        ct.pairs = {}
+        m.cuts = ct
+        m.elem = 32
+        m.canon_mnems = CANON_MNEMS
+        info["ct"] = ct
+        spec = []
+        mr = regs["input"]
+        for sgm in range(16):
+            st = []
+            for w in range(nw):
+                v = z3.BitVec("in_digest_w%d_s%d" % (w, sgm), 32)
+                mem.set_value(R, (w * 16 + sgm) * 4, v, 32)
+                st.append(v)
+            for b in range(nblocks):
+                words = [simp(bswap(mem.get(mr, b * 1024 + (i * 16 + sgm) * 4, 32), 32)) for i in range(16)]
+                st = A["compress"](st, words, ct, "s%d_b%d_" % (sgm, b))
+                if b + 1 < nblocks:
+                    st = [_reg(ct, "s%d_b%d_H%d" % (sgm, b, k), x) for k, x in enumerate(st)]
+            spec.append(st)
+        info["spec"] = spec
+    res = run_case(img, c, prepare=prepare, max_steps=6000000)
+    out.steps = res.steps
+    if res.error:
+        out.error = res.error
+        return out
+    ct = info["ct"]
+    R = res.regions["digests"]
+    hyps = ct.hypotheses()
+    outputs = []
+    for sgm in range(16):
+        for w in range(nw):
+            got = res.mem.get(R, (w * 16 + sgm) * 4, 32)
+            outputs.append(("digests[%d][segment %d]" % (w, sgm), got, 32))
+            out.obligations += 1
+            verdict, model, dt = prove_equal(got, info["spec"][sgm][w], 32, hyps=[], sim=ct)
+            if verdict != "proved" and verdict != "refuted":
+                verdict, model, dt = prove_equal(got, info["spec"][sgm][w], 32, hyps=hyps, sim=ct)
+            out.queries += 1
+            out.solver_s += dt
+            if verdict == "proved":
+                out.discharged += 1
+            elif verdict == "refuted":
+                out.bad(["C05"], "mhkernel:digest", "%s: interim digest word %d of segment %d differs from SHA over the segment's words (%s)" % (c.name, w, sgm, ("got %s, standard %s" % (model.get("lhs"), model.get("rhs"))) if isinstance(model, dict) else "solver model"))
+            else:
+                out.error = "solver unknown on digest word %d segment %d" % (w, sgm)
+    out.queries += ct.proved
+    out.solver_s += ct.solver_s
+    for (kind, a, n, what, desc) in res.violations:
+        out.bad(["C08"], "footprint:%s:%s" % (kind, desc.split(" ")[0]), "%s of %d byte(s) at %s by '%s'" % (kind, n, desc, what))
+    out.obligations += 1
+    if not res.violations:
+        out.discharged += 1
+    for lab, val, bits in outputs:
+        out.obligations += 1
+        st_ = aesrun.stale_dependence(val)
+        if st_:
+            out.bad(["C20"], "stale:%s" % lab.split("[")[0], "%s depends on undefined state %s" % (lab, st_[:3]))
+        else:
+            out.discharged += 1
+    return out
+
+
 class aescases_Outcome:
     def __init__(self, case):
         self.case = case
